@@ -61,6 +61,11 @@ func runC10(c *Ctx) {
 				if _, isDbg := r.(*ssa.DebugRef); isDbg {
 					continue
 				}
+				// D45: `m := *stored; m.Compress = true; m.Pack()` — a by-value copy (it shares the record slices) that
+				// is only packed: nothing is written through it but its own Compress flag
+				if ld, isLd := r.(*ssa.UnOp); isLd && ld.Op == token.MUL && packOnlyLocalCopy(ld) {
+					continue
+				}
 				bad = "flows into " + strings.TrimSpace(r.String())
 			}
 			c.check(bad == "", key, instrPos(in), "stored message used only as receiver of Copy/Pack",
